@@ -11,7 +11,7 @@ use vcore::values::nonbaseline_fields;
 
 pub fn run(run: &RunInfo, c03: bool) -> Summary {
     let table = shipped();
-    let k = if run.thorough() { 3 } else { 2 };
+    let k = if run.thorough() { 4 } else { 3 };
     let types = table.all();
     let reg = registry();
     let nats = natives();
